@@ -587,4 +587,66 @@ Section Whole.
     rewrite <- Htr. unfold tr. rewrite <- final_image_replay. fold F. exact HatF.
   Qed.
 
+
+  (** the final write of page 0 (write number [length tr - 2]) torn at any byte *)
+  Corollary torn_final_write : xml <> [] -> len F < 2 ^ 64 -> forall cut,
+    match open_result (crash_image tr (length tr - 2) cut) with
+    | Panic => False
+    | Err _ => True
+    | Ok (_, _, xr) =>
+        (exists k, k <= len xml /\ xr = take k xml /\ (k = len xml \/ k = 0 \/ k + 256 <= len xml)) /\
+        (xr = xml -> crash_image tr (length tr - 2) cut = F /\ snd (wrun p pw_fresh) = Ok tt)
+    end.
+  Proof. intros Hne Hsize cut. apply accepted_is_complete; assumption. Qed.
+
+  (** all writes after the header patch (the rewrite in Drop) rewrite what is there *)
+  Theorem after_final_write n cut :
+    snd (wrun p pw_fresh) = Ok tt -> (length tr <= n + 1)%nat -> crash_image tr n cut = F.
+  Proof.
+    intros Hok Hn.
+    destruct (crash_trace_shape is xml) as [[Hf _]|[_ (pre & P0 & data4 & x & Hsh)]]; [contradiction|].
+    cbv zeta in Hsh. destruct Hsh as (Htr & Hpre & HI & HF & HlP & _).
+    fold p tr in Htr.
+    assert (HlI : len (paginate data4) = pages_for (len data4) * 1024) by apply len_paginate.
+    assert (Hpg : 1 <= pages_for (len data4)).
+    { assert (Hnn : len (paginate data4) <> 0); [|lia].
+      rewrite <- HI. intros E0. apply PageSpecLemmas.len_0_nil in E0.
+      pose proof (final_image_replay _ p) as Hr. fold tr in Hr. rewrite Htr in Hr.
+      change (pre ++ [(0, P0); (0, P0)]) with (pre ++ [(0, P0)] ++ [(0, P0)]) in Hr.
+      rewrite app_assoc, !apply_writes_snoc, E0 in Hr. cbn [fst snd] in Hr.
+      fold p in HF. rewrite HF in Hr. apply (f_equal len) in Hr.
+      rewrite len_paginate, !len_overwrite, HlP, len_hdr in Hr. cbn in Hr.
+      (* the completed file has at least one page; so had the image before *)
+      unfold pages_for, PAYLOAD_SZ in *. lia. }
+    assert (HFr : F = overwrite (paginate data4) 0 P0).
+    { unfold F. rewrite final_image_replay. fold tr. rewrite Htr.
+      change (pre ++ [(0, P0); (0, P0)]) with (pre ++ [(0, P0)] ++ [(0, P0)]).
+      rewrite app_assoc, !apply_writes_snoc, HI. cbn [fst snd].
+      rewrite <- (take_all 1024 P0) at 2 by lia. apply overwrite_prefix_idem. lia. }
+    rewrite Htr in Hn |- *. rewrite app_length in Hn. cbn [length] in Hn.
+    destruct (Nat.eq_dec n (S (length pre))) as [->|Hn2].
+    - unfold crash_image.
+      change (pre ++ [(0, P0); (0, P0)]) with (pre ++ [(0, P0)] ++ [(0, P0)]). rewrite app_assoc.
+      rewrite firstn_app, app_length. cbn [length].
+      replace (S (length pre) - (length pre + 1))%nat with 0%nat by lia. cbn [firstn].
+      rewrite firstn_all2, app_nil_r by (rewrite app_length; cbn [length]; lia).
+      rewrite nth_error_app2 by (rewrite app_length; cbn [length]; lia).
+      rewrite app_length. cbn [length].
+      replace (S (length pre) - (length pre + 1))%nat with 0%nat by lia. cbn [nth_error]. unfold torn. cbn [fst snd].
+      rewrite !apply_writes_snoc, HI. cbn [fst snd]. rewrite firstn_take, HFr.
+      apply overwrite_prefix_idem. lia.
+    - rewrite crash_image_all by (rewrite app_length; cbn [length]; lia).
+      rewrite <- Htr. unfold tr. rewrite <- final_image_replay. reflexivity.
+  Qed.
 End Whole.
+
+(** the writer dropped without the top-level [finalize]: every image, including what is left on the
+    device at the end, is rejected or yields an empty XML *)
+Theorem unfinalized_rejected is n cut :
+  rejected_or_empty (crash_image (trace_of (unfinalized_prog is)) n cut).
+Proof. apply weak_rejected, unfinalized_trace_ok. Qed.
+
+Print Assumptions accepted_is_complete.
+Print Assumptions before_final_write.
+Print Assumptions after_final_write.
+Print Assumptions unfinalized_rejected.
